@@ -20,7 +20,7 @@ static std::vector<std::string> pick_texts(const std::string &corpus, size_t wan
 static void setup(Runner &r, const Tier &t) {
     g_thor = t.thorough; g_cases.clear(); g_fonts.clear(); g_texts.clear();
     struct F { std::string font, corpus; }; std::vector<F> fs = { { "Padauk.ttf", "my_HeadwordSyllables.txt" }, { "Scheherazadegr.ttf", "udhr_arb.txt" }, { gen_dir() + "/s_full.ttf", "" } };
-    { fs.push_back({ "charis_r_gr.ttf", "udhr_yor.txt" }); fs.push_back({ "Awami_test.ttf", "awami_tests.txt" }); fs.push_back({ gen_dir() + "/s_full_rtl.ttf", "" }); fs.push_back({ "Annapurnarc2.ttf", "udhr_nep.txt" }); fs.push_back({ gen_dir() + "/s_full_le.ttf", "" }); fs.push_back({ gen_dir() + "/s_full_step.ttf", "" }); fs.push_back({ gen_dir() + "/s_full_nojust.ttf", "" }); fs.push_back({ "PigLatinBenchmark_v3.ttf", "" });   /* no justification levels and more glyphs than characters (insertions) */ fs.push_back({ gen_dir() + "/s_full_rtl_le.ttf", "" }); }
+    { fs.push_back({ "charis_r_gr.ttf", "udhr_yor.txt" }); fs.push_back({ "Awami_test.ttf", "awami_tests.txt" }); fs.push_back({ gen_dir() + "/s_full_rtl.ttf", "" }); fs.push_back({ "Annapurnarc2.ttf", "udhr_nep.txt" }); fs.push_back({ gen_dir() + "/s_full_le.ttf", "" }); fs.push_back({ gen_dir() + "/s_full_le_badlb.ttf", "" });      /* line-end slots carry a glyph id the font does not have */ fs.push_back({ gen_dir() + "/s_full_step.ttf", "" }); fs.push_back({ gen_dir() + "/s_full_nojust.ttf", "" }); fs.push_back({ "PigLatinBenchmark_v3.ttf", "" });   /* no justification levels and more glyphs than characters (insertions) */ fs.push_back({ gen_dir() + "/s_full_rtl_le.ttf", "" }); }
     for (auto &f : fs) {
         g_fonts.push_back(f.font);
         if (f.font.find("PigLatin") != std::string::npos) g_texts.push_back({ "hello", "hello world", "pig latin" });
@@ -32,7 +32,7 @@ static void setup(Runner &r, const Tier &t) {
         { const std::string &t0 = g_texts.back()[0]; size_t p1 = 1; while (p1 < t0.size() && (uint8_t(t0[p1]) & 0xC0) == 0x80) ++p1; size_t p2 = p1 < t0.size() ? p1 + 1 : p1; while (p2 < t0.size() && (uint8_t(t0[p2]) & 0xC0) == 0x80) ++p2;
           std::string one = t0.substr(0, p1), two = t0.substr(0, p2); g_texts.back().push_back(one); if (two != one) g_texts.back().push_back(two); g_texts.back().push_back(" "); }
         int fi = int(g_fonts.size()) - 1;
-        for (int ti = 0; ti < int(g_texts[fi].size()); ++ti) for (int dir = 0; dir < 8; ++dir) for (int wf = 0; wf < 2; ++wf) g_cases.push_back({ fi, ti, dir, wf });
+        for (int ti = 0; ti < int(g_texts[fi].size()); ++ti) for (int dir = 0; dir < 8; ++dir) for (int wf = 0; wf < 3; ++wf) { if (wf == 2 && f.font.find("s_full") == std::string::npos) continue; g_cases.push_back({ fi, ti, dir, wf }); }      /* wf 2: font with an advance callback (hinted), on the synthesised fonts */
     }
     r.ncases = g_cases.size(); r.case_alarm_s = unsigned(r.deadline_s) + 600;
     r.shard_init = [](int) { g_fc = new FaceCache; };
@@ -41,7 +41,7 @@ static void setup(Runner &r, const Tier &t) {
     r.body = [](uint64_t ci, ShardCtl &ctl) {
         const JCase &c = g_cases[ci]; gr_face *face = g_fc->get(g_fonts[c.font], gr_face_preloadAll); if (!face) return;
         const gr_faceinfo *fi = gr_face_info(face, 0); bool justifies = fi && fi->justifies; bool line_ends = fi && fi->line_ends;
-        gr_font *font = c.wf ? gr_make_font(24.0f, face) : nullptr;
+        static int hint_handle; gr_font *font = c.wf == 2 ? gr_make_font_with_advance_fn(24.0f, &hint_handle, [](const void *, gr_uint16 g) -> float { return float(5 + g % 7); }, face) : c.wf ? gr_make_font(24.0f, face) : nullptr;
         const std::string &txt = g_texts[c.font][c.text]; size_t nch = utf8_count(txt);
         // probe segment: slot count and cluster boundaries
         gr_segment *probe = gr_make_seg(font, face, 0, nullptr, gr_utf8, txt.c_str(), nch, c.dir); if (!probe) { if (font) gr_font_destroy(font); return; }
